@@ -514,6 +514,16 @@ def pmap(fn, chunks, workers=None):
     workers = workers or WORKERS
     if len(chunks) <= 1 or workers <= 1:
         return [fn(c) for c in chunks]
+    # import the library in the parent before forking: with PYTHONDONTWRITEBYTECODE every
+    # worker would otherwise recompile ~190 graphql modules
+    try:
+        use_repo()
+        import graphql  # noqa: F401
+        import graphql.execution  # noqa: F401
+        import graphql.utilities  # noqa: F401
+        import graphql.validation  # noqa: F401
+    except Exception:  # noqa: BLE001 - a tree that does not import is reported by the check itself
+        pass
     ctxm = mp.get_context("fork")
     with ctxm.Pool(min(workers, len(chunks))) as pool:
         return pool.map(fn, chunks, chunksize=1)
